@@ -369,9 +369,12 @@ class AccessMixin:
             if b.cells is not None:
                 ss = self.static_slice(key, len(b.cells))
                 if ss is not None:
-                    return Buf(cells=list(b.cells[ss[0]:ss[1]]))
+                    r = Buf(cells=list(b.cells[ss[0]:ss[1]]))
+                    r.pytype = getattr(b, "pytype", None)
+                    return r
             r = Buf(cells=None, length=Sym.opaque(("len", "slice", id(b), self.brief(key.start), self.brief(key.stop))))
             r.parts = [("slice", b, key)]
+            r.pytype = getattr(b, "pytype", None)
             return r
         if isinstance(key, int):
             if b.cells is not None:
@@ -484,6 +487,8 @@ class AccessMixin:
                       node, frame.where(node))
 
     def buf_set(self, b, key, v, node, frame):
+        if getattr(b, "pytype", None) in ("bytes", "memoryview-ro"):
+            raise PyRaise(Instance(self.bclasses["TypeError"], ("'%s' object does not support item assignment" % b.pytype,)), node, frame.where(node))
         self.journal_buf(b)
         v = norm_int(v)
         if isinstance(key, int):
@@ -570,3 +575,29 @@ class AccessMixin:
                 del obj[key]
             except IndexError:
                 self.index_error(node, frame)
+            return
+        if isinstance(obj, list) and isinstance(key, slice):
+            ss = self.static_slice(key, len(obj))
+            if ss is not None:
+                del obj[ss[0]:ss[1]]
+                return
+        if isinstance(obj, Buf):
+            # bytes and memoryview objects cannot shrink; a bytearray can
+            if getattr(obj, "pytype", None) in ("bytes", "memoryview", "memoryview-ro"):
+                raise PyRaise(Instance(self.bclasses["TypeError"], ("'%s' object doesn't support item deletion" % obj.pytype,)), node, frame.where(node))
+            if obj.cells is not None:
+                self.journal_buf(obj)
+                if isinstance(key, slice):
+                    ss = self.static_slice(key, len(obj.cells))
+                    if ss is not None:
+                        del obj.cells[ss[0]:ss[1]]
+                        obj.length = len(obj.cells)
+                        return
+                elif isinstance(key, int) and -len(obj.cells) <= key < len(obj.cells):
+                    del obj.cells[key]
+                    obj.length = len(obj.cells)
+                    return
+                else:
+                    return self.index_error(node, frame)
+            self.notes.append(("dynamic-buffer-delete", frame.where(node)))
+            return
